@@ -35,7 +35,7 @@ RULE = (
 ASSUMPTIONS = ["OpenAPI 3.0 / 3.1 documents and their Swagger 2.0 rendering (cookie parameters become formData, requestBody becomes an `in: body` parameter with operation-level or global `consumes`)", "unknown `in` values are not generated (dropped on purpose by add_parameter)"]
 
 LOCS = ["query", "header", "cookie", "path"]
-NAMES = ["id", "q", "X-A"]
+NAMES = ["id", "q", "X-A", "X-Key", "api_key"]  # the last two are also the names of the security schemes' parameters
 METHODS = ["get", "post", "put", "delete"]
 SCHEMAS = [{"type": "integer"}, {"type": "string"}, {"type": "string", "enum": ["a"]}, {"type": "boolean"}, {"type": "integer", "minimum": 5}, {"type": "string", "format": "date", "enum": ["2020-01-01"], "example": "2020-01-01"}]
 
@@ -347,8 +347,16 @@ def load(inp, workdir):
         root, second = split_multi(doc, root_name)
         if second is not None:
             os.makedirs(os.path.join(workdir, "shared"), exist_ok=True)
-            with open(os.path.join(workdir, "shared", "items.json"), "w") as fd:
-                json.dump(second, fd)
+            if inp["format"] == "yaml-file" and inp["history"] and inp["history"][0][1] % 3:
+                # the referenced file is written by hand as well: the same reading must apply to it as to the root document
+                for item in root["paths"].values():
+                    if "$ref" in item and item["$ref"].startswith("shared/items.json"):
+                        item["$ref"] = item["$ref"].replace("shared/items.json", "shared/items.yaml")
+                with open(os.path.join(workdir, "shared", "items.yaml"), "w") as fd:
+                    fd.write(yaml_human(second) + "\n")
+            else:
+                with open(os.path.join(workdir, "shared", "items.json"), "w") as fd:
+                    json.dump(second, fd)
             path = os.path.join(workdir, root_name)
             with open(path, "w") as fd:
                 if inp["format"] == "yaml-file":
